@@ -65,6 +65,7 @@ package stats
 //@   requires noNaN(x1) && noNaN(x2) && len(x1) <= 1000000 && len(x2) <= 1000000
 //@   ensures err == nil ==> r != nil
 //@   ensures (len(x1) == 0 || len(x2) == 0) ==> r == nil && err == ErrSampleSize
+//@   ensures err == ErrSampleSize ==> (len(x1) == 0 || len(x2) == 0)
 //@   ensures err != nil ==> r == nil && (err == ErrSampleSize || err == ErrSamplesEqual)
 //@   ensures err == nil ==> r.N1 == len(x1) && r.N2 == len(x2) && r.AltHypothesis == alt
 //@   ensures err == nil ==> exists tv []int witness T :: pSelected(r.P, r.U, len(x1), len(x2), tv, alt)
